@@ -1,8 +1,9 @@
 // Package c17race is the concurrency evidence for property C17: goroutines register, replace and remove routes and
 // swap the default handler of one real mux.Router while others dispatch requests. Built with -race by checks/c17.py.
 //
-// Input ($VERIF_IN): lines `race <seed> <milliseconds> <dispatchers>`. Output: `ok serves=N mutations=M` or
-// `bad <what>` (first inconsistency seen). A data race makes the race detector print its report and fail the test.
+// Input ($VERIF_IN): lines `race <seed> <milliseconds> <dispatchers>` (output `ok serves=N mutations=M` or `bad <what>`,
+// first inconsistency seen) and `writers <seed> <rounds> <writers>` (concurrent writers on disjoint patterns, see
+// runWriters; output `ok rounds=R operations=N` or `bad lost-update <what>`). A data race makes the race detector print its report and fail the test.
 //
 // Requests go through mux.ToHandler (the adapter the servers use). What a handler checks when it is invoked (with an in-harness reference matcher that knows nothing of regexps):
 //   - the pattern it was registered under matches the ENTIRE path of the request it received;
@@ -238,8 +239,97 @@ func runRace(seed int64, d time.Duration, dispatchers int) string {
 	return fmt.Sprintf("ok serves=%d mutations=%d", serves.Load(), mutations.Load())
 }
 
+// runWriters: several goroutines register and remove routes CONCURRENTLY, each on its own patterns (`/w<k>/p<j>`), so the
+// operations commute and the table after they joined is known: pattern registered iff the last successful operation of its
+// owner on it was a Handle. Compared: every Handle/HandleRemove answer (a HandleRemove of a pattern its owner has registered
+// must succeed), GetRoutes, and one dispatch per pattern (its handler iff registered, else the default handler).
+func runWriters(seed int64, rounds, writers int) string {
+	const perWriter = 4
+	const ops = 24
+	total := 0
+	for round := 0; round < rounds; round++ {
+		r := mux.NewRouter()
+		var hitMu sync.Mutex
+		hit := ""
+		mk := func(p string) mux.Handler {
+			return mux.HandlerFunc(func(mux.ResponseWriter, *mux.Message) { hitMu.Lock(); hit = p; hitMu.Unlock() })
+		}
+		r.DefaultHandle(mk("default"))
+		expected := make([]map[string]bool, writers)
+		problems := make([]string, writers)
+		start := make(chan struct{})
+		var wg sync.WaitGroup
+		for k := 0; k < writers; k++ {
+			expected[k] = map[string]bool{}
+			wg.Add(1)
+			go func(k int) {
+				defer wg.Done()
+				rng := rand.New(rand.NewSource(seed*1000003 + int64(round)*131 + int64(k)))
+				<-start
+				for j := 0; j < ops; j++ {
+					p := fmt.Sprintf("/w%d/p%d", k, rng.Intn(perWriter))
+					if rng.Intn(3) == 0 {
+						err := r.HandleRemove(p)
+						if (err == nil) != expected[k][p] && problems[k] == "" {
+							problems[k] = fmt.Sprintf("HandleRemove(%q)=%v but its only writer had registered=%v", p, err, expected[k][p])
+						}
+						delete(expected[k], p)
+					} else {
+						if err := r.Handle(p, mk(p)); err != nil && problems[k] == "" {
+							problems[k] = fmt.Sprintf("Handle(%q): %v", p, err)
+						}
+						expected[k][p] = true
+					}
+				}
+			}(k)
+		}
+		close(start)
+		wg.Wait()
+		total += writers * ops
+		for _, pr := range problems {
+			if pr != "" {
+				return "bad lost-update " + strings.ReplaceAll(fmt.Sprintf("round=%d %s", round, pr), " ", "_")
+			}
+		}
+		routes := r.GetRoutes()
+		adapter := mux.ToHandler[*udpClient.Conn](r)
+		pl := pool.New(0, 0)
+		for k := 0; k < writers; k++ {
+			for j := 0; j < perWriter; j++ {
+				p := fmt.Sprintf("/w%d/p%d", k, j)
+				_, in := routes[p]
+				if in != expected[k][p] {
+					return "bad lost-update " + strings.ReplaceAll(fmt.Sprintf("round=%d pattern=%q registered-by-its-only-writer=%v in-GetRoutes=%v (writers=%d)", round, p, expected[k][p], in, writers), " ", "_")
+				}
+				msg := pl.AcquireMessage(context.Background())
+				msg.SetCode(codes.GET)
+				for _, seg := range strings.Split(p[1:], "/") {
+					msg.AddOptionBytes(message.URIPath, []byte(seg))
+				}
+				hit = ""
+				adapter(responsewriter.New[*udpClient.Conn](pl.AcquireMessage(context.Background()), nil), msg)
+				want := "default"
+				if expected[k][p] {
+					want = p
+				}
+				if hit != want {
+					return "bad lost-update " + strings.ReplaceAll(fmt.Sprintf("round=%d path=%q dispatched-to=%q want=%q", round, p, hit, want), " ", "_")
+				}
+			}
+		}
+	}
+	return fmt.Sprintf("ok rounds=%d operations=%d", rounds, total)
+}
+
 func TestC17Race(t *testing.T) {
 	err := lp.FileLoop(func(f []string, w *bufio.Writer) {
+		if len(f) == 4 && f[0] == "writers" {
+			seed, _ := strconv.ParseInt(f[1], 10, 64)
+			rounds, _ := strconv.Atoi(f[2])
+			n, _ := strconv.Atoi(f[3])
+			fmt.Fprintln(w, runWriters(seed, rounds, n))
+			return
+		}
 		if len(f) != 4 || f[0] != "race" {
 			fmt.Fprintln(w, "bad-op")
 			return
